@@ -174,9 +174,10 @@ def judge_model(ctx, case, resp):
             ctx.classes["out:literal-not-reproduced"] += 1     # the FEEL text of the value does not evaluate to it: not this property's subject
             continue
         want, rule, onotes = IR.coerced(tree, v)
-        for who in ("Id", "Out %d" % i, "Svc %d" % i, "Inv %d" % i, "Call %d" % i) + (("Multi",) if multi == i else ()):
+        for who in ("Id", "Out %d" % i, "Svc %d" % i, "Inv %d" % i, "Call %d" % i, "Box %d" % i, "TCall %d" % i, "BCall %d" % i) + (("Multi",) if multi == i else ()):
             kind = {"Id": "bkm", "Ou": "decision", "Sv": "service", "Mu": "multi-output-service", "In": "bkm-by-boxed-invocation",
-                    "Ca": "bkm-by-literal-call"}[who[:2]]
+                    "Ca": "bkm-by-literal-call", "Tb": "bkm-with-table-logic", "Bo": "bkm-with-context-logic",
+                    "TC": "table-bkm-by-literal-call", "BC": "context-bkm-by-literal-call"}[who[:2]]
             got = result(who, i)
             labels = ["out:" + kind, "out-rule:" + rule, "out:" + m] + ["out-note:" + n for n in sorted(onotes)]
             f = None
